@@ -73,7 +73,7 @@ def denote_svg_subtree(root, element, tokens) -> List[SvgLeaf]:
     return denote_svg(root, tokens, only=element)
 
 
-def denote_svg(root, tokens, only=None) -> List[SvgLeaf]:
+def denote_svg(root, tokens, only=None, gradient_transform_hook=None) -> List[SvgLeaf]:
     ids: Dict[str, etree._Element] = {}
     for el in root.iter():
         if isinstance(el.tag, str) and "id" in el.attrib:
@@ -83,6 +83,8 @@ def denote_svg(root, tokens, only=None) -> List[SvgLeaf]:
     def gradient(el, N):
         kind = _local(el)
         gt = parse_transform(el.attrib.get("gradientTransform"), tokens)
+        if gradient_transform_hook is not None and "gradientTransform" in el.attrib:
+            gt = gradient_transform_hook(gt)  # lets a harness read back a documented, deliberate perturbation
         if el.attrib.get("gradientUnits", "objectBoundingBox") != "userSpaceOnUse":
             raise NotImplementedError("objectBoundingBox gradients are not emitted by nanoemoji")
         N = ps.mul(N, gt)
